@@ -901,6 +901,33 @@ func sliceValidatedBefore(slice ssa.Value, at ssa.Instruction) bool {
 	fn := at.Parent()
 	root := ValueOrigin(slice)
 	ok := false
+	// the validation may have been extracted: err := validate(slice); if err != nil { return }
+	// where validate fails on a nil element (and `at` is only reached with err == nil)
+	for _, cd := range CondsAt(at.Block()) {
+		op, x, y, isCmp := cd.Holds()
+		if !isCmp || op != token.EQL || !IsNilConst(y) || !isErrType(x.Type()) {
+			continue
+		}
+		var call *ssa.Call
+		switch v := ValueOrigin(x).(type) {
+		case *ssa.Call:
+			call = v
+		case *ssa.Extract:
+			call, _ = v.Tuple.(*ssa.Call)
+		}
+		if call == nil {
+			continue
+		}
+		callee := call.Call.StaticCallee()
+		if callee == nil || callee.Blocks == nil {
+			continue
+		}
+		for i, a := range call.Call.Args {
+			if ValueOrigin(a) == root && i < len(callee.Params) && failsOnNilElem(callee, callee.Params[i]) {
+				return true
+			}
+		}
+	}
 	Instrs(fn, func(b *ssa.BasicBlock, _ int, ins ssa.Instruction) {
 		bo, isB := ins.(*ssa.BinOp)
 		if !isB || (bo.Op != token.EQL && bo.Op != token.NEQ) {
@@ -946,4 +973,61 @@ func sliceValidatedBefore(slice ssa.Value, at ssa.Instruction) bool {
 		}
 	})
 	return ok
+}
+
+// failsOnNilElem: fn ranges over its slice parameter par and, for a nil element, leaves the loop
+// towards returns that all carry a non-nil error.
+func failsOnNilElem(fn *ssa.Function, par *ssa.Parameter) bool {
+	found := false
+	Instrs(fn, func(b *ssa.BasicBlock, _ int, ins ssa.Instruction) {
+		bo, isB := ins.(*ssa.BinOp)
+		if !isB || (bo.Op != token.EQL && bo.Op != token.NEQ) || !InLoop(b) || bo.Referrers() == nil {
+			return
+		}
+		_, cx, cy, _ := BinCmp(bo)
+		if !IsNilConst(cy) {
+			return
+		}
+		ld, isLd := cx.(*ssa.UnOp)
+		if !isLd || ld.Op != token.MUL {
+			return
+		}
+		ia, isIA := ld.X.(*ssa.IndexAddr)
+		if !isIA || ValueOrigin(ia.X) != ssa.Value(par) {
+			return
+		}
+		for _, ref := range *bo.Referrers() {
+			ifi, isIf := ref.(*ssa.If)
+			if !isIf {
+				continue
+			}
+			nilSucc := ifi.Block().Succs[0]
+			if bo.Op == token.NEQ {
+				nilSucc = ifi.Block().Succs[1]
+			}
+			reach := ReachableFrom(nilSucc)
+			if reach[b] {
+				continue // the nil branch goes on with the loop
+			}
+			reach[nilSucc] = true
+			allFail, n := true, 0
+			for rb := range reach {
+				if len(rb.Instrs) == 0 {
+					continue
+				}
+				ret, ok := rb.Instrs[len(rb.Instrs)-1].(*ssa.Return)
+				if !ok {
+					continue
+				}
+				n++
+				if len(ret.Results) == 0 || !isErrType(ret.Results[len(ret.Results)-1].Type()) || IsNilConst(ret.Results[len(ret.Results)-1]) {
+					allFail = false
+				}
+			}
+			if allFail && n > 0 {
+				found = true
+			}
+		}
+	})
+	return found
 }
